@@ -134,11 +134,11 @@ pub(crate) struct Salsa20Cipher {
 
 impl Salsa20Cipher {
     pub(crate) fn new(key: &[u8]) -> Result<Self, CryptographyError> {
-        let key = GenericArray::from_slice(key);
-        let iv = GenericArray::from([0xE8, 0x30, 0x09, 0x4B, 0x97, 0x20, 0x5D, 0x2A]);
+        let iv = [0xE8, 0x30, 0x09, 0x4B, 0x97, 0x20, 0x5D, 0x2A];
 
+        // the key comes from the file: it must have the size of a Salsa20 key
         Ok(Salsa20Cipher {
-            cipher: Salsa20::new(&key, &iv),
+            cipher: Salsa20::new_from_slices(key, &iv)?,
         })
     }
 }
